@@ -120,9 +120,9 @@ class CRunner:
 PROPS_C = {
     # levels: trace line prefixes compared with the model
     "C12": dict(target="c", impl="c", runner=CRunner, levels=["O", "T", "CH", "SZ", "TC", "X"],
-                quick=(16, 40), thorough=(64, 120), trusted=TRUSTED_C),
+                quick=(16, 100), thorough=(64, 200), trusted=TRUSTED_C),
     "C13": dict(target="c", impl="c", runner=CRunner, levels=["O", "T", "TC", "RC", "E", "X"],
-                quick=(16, 40), thorough=(64, 120), trusted=TRUSTED_C),
+                quick=(16, 100), thorough=(64, 200), trusted=TRUSTED_C),
 }
 
 
